@@ -22,11 +22,12 @@ Three-way check per generated model (documented export subset):
 
 Known defects of the pinned tree (generator avoids their triggers; witnesses in corpus/C15):
   D29_kwarg_name   a keyword-argument NAME that is also read as a rewritten global in the same scope
-  comp_scope       a list comprehension that follows a sibling lambda/def/genexp in its function (py>=3.12)
   comp_var         the variable of a list comprehension is also read as a global in the formula (py>=3.12)
   ifexp_order      `a if c else b` with function scopes in both a and c (libcst vs symtable order)
   (modelx itself rejects global names in default values of cells parameters: never generated)
 Repaired in /repo (the shapes are generated; witnesses stay in corpus/C15, reproducers in corpus/fixed/C15_<key>.py):
+  comp_scope       a list comprehension that follows a sibling lambda/def/genexp in its function (py>=3.12) looked its
+                   names up in the sibling's symbol table; now in the table of the enclosing scope
   self_local       a parameter / local variable / nested function / lambda parameter / comprehension variable named `self`
                    hid the instance parameter of the generated method.  Such a formula is outside the export subset
                    (Export/Model.v no_self is a hypothesis of every C15 theorem, Run.v stbl_okb checks it; export_model now
@@ -37,8 +38,9 @@ Repaired in /repo (the shapes are generated; witnesses stay in corpus/C15, repro
                    parameters id abs pow len hash sorted are generated.  The exporter now hands references + child spaces +
                    parameters (own and enclosing) + cells to FormulaTransformer: the dump mirrors that list ("xtop"); Run.v
                    wants s_top inside the namespace, so the static space of a parametrised tree gets the list without the
-                   parameters ("top"); queries on such a space are left to (P) when the absent parameter is a built-in
-                   that Run.v py_fn does not evaluate (e_case)
+                   parameters ("top"); queries on such a space object are left to (P) when an absent parameter is named
+                   like a built-in: the name then is the built-in function, which the Gallina evaluator cannot compare
+                   with an integer or does not know at all (e_case)
 """
 import os, json, glob, builtins, hashlib
 import fw
@@ -264,19 +266,16 @@ def coq_canon(v):
     return None
 
 
-COQ_BUILTINS = ["sum", "len", "abs", "max", "min", "range", "sorted", "list"]      # Export/Run.v py_fn_names
-
-
 def e_case(case, res):
     """Gallina term (tables, queries) for one case, number of queries, or None"""
     d = res.get("dump")
     if not d:
         return None, 0
     # a static space of a parametrised tree has no value for the parameters: one named like a built-in IS the built-in
-    # there (in the model and, by a class attribute, in the package).  Run.v evaluates the built-ins of py_fn only, so
-    # queries on such a space whose absent parameter is another built-in (id, pow, hash) are left to (P)
-    beyond = {sid for sid, sp in enumerate(d["spaces"])
-              if any(k in PY_BUILTINS and k not in COQ_BUILTINS for k in sp["absent"])}
+    # function there (in the model and, by a class attribute, in the package), where the generated formulas mean an
+    # integer.  The Gallina evaluator knows the built-ins of Run.v py_fn only and has no == between a function and an
+    # integer (False in Python): queries on such a space object are left to (P)
+    beyond = {sid for sid, sp in enumerate(d["spaces"]) if any(k in PY_BUILTINS for k in sp["absent"])}
     tbls = []
     for sp in d["spaces"]:
         ns = G._cl(["(%s, %s)" % (G._cs(n), coq_dval(v)) for n, v in sp["ns"]])
